@@ -153,6 +153,18 @@ func (x *Exec) lockAccess(st *State, sname, path, ref, what string) {
 		return
 	}
 	key := sname + "." + path
+	// Log entries are handed to goroutines that read them WITHOUT the lock (the senders serialise
+	// the entries of a request after releasing it). That is race-free only because Index, Term,
+	// Data and EntryType of an entry are never written after the entry has been created: a write
+	// to one of them on an entry that this call has not allocated itself is a violation, with or
+	// without the lock.
+	if sname == "LogEntry" && what == "write" && (path == "Index" || path == "Term" || path == "Data" || path == "EntryType") {
+		if _, mine := x.owned[ref]; !mine || x.escaped[ref] {
+			x.lockAccesses++
+			x.lockViolations = append(x.lockViolations, fmt.Sprintf("write of %s on a log entry that other goroutines read without the lock (entries are immutable once created) at %s", key, x.e.pos(x.curPos)))
+		}
+		return
+	}
 	guarded := guardedTypes[sname] || key == "Cell.int" || key == "LogEntry.Offset"
 	if !guarded || x.isThreadLocalKey(key) {
 		return
